@@ -54,6 +54,11 @@ pub struct Qcow2Dev<T> {
     flush_lock: AsyncMutex<()>,
     // serializes refcount flushing, see flush_refcount()
     refcount_flush_lock: AsyncMutex<()>,
+    // how many new clusters have been zeroed, and how many of them were
+    // zeroed before the last completed whole-file sync was submitted, see
+    // flush_cache_entries()
+    zeroed_clusters: AtomicU64,
+    synced_zeroed_clusters: AtomicU64,
 
     file: T,
     backing_file: Option<Box<Qcow2Dev<T>>>,
@@ -134,6 +139,8 @@ impl<T: Qcow2IoOps> Qcow2Dev<T> {
             need_flush: AtomicBool::new(false),
             flush_lock: AsyncMutex::new(()),
             refcount_flush_lock: AsyncMutex::new(()),
+            zeroed_clusters: AtomicU64::new(0),
+            synced_zeroed_clusters: AtomicU64::new(0),
         };
 
         Ok(dev)
